@@ -2,7 +2,7 @@ import Model.CrashValueFixed
 import Proofs.C05Value
 import Proofs.C05ValueAgree
 /-!
-  C05 / value decoders, FIXED variant: with the seven guards of props/C05.val.fix-*.diff the full
+  C05 / value decoders, FIXED variant: with the seven guards of props/C05.fix-{6,10,11,12,13,14,15}.diff the full
   property holds, no exclusion: no protocol version, type tree, destination and byte string makes
   `Unmarshal` crash (`C05_values_total_fixed`); the fixes change no non-crashing outcome
   (`C05_fixes_conservative`, Proofs/C05ValueAgree.lean) and bound the element count handed to
